@@ -4,4 +4,4 @@
 ID="$1"; TIER="${2:-quick}"
 rsync -a --delete --exclude .work --exclude .git --exclude replays --exclude evidence /verif/ /tmp/verif2/
 mkdir -p /tmp/verif2/.work /tmp/verif2/evidence
-VERIF_DIR=/tmp/verif2 VERIF_REPO=/tmp/seed4/CLEAN /tmp/verif2/vcheck $ID $TIER 2>&1 | grep "VIOLATION\|HARNESS\|tier=" | cut -c1-300
+VERIF_DIR=/tmp/verif2 VERIF_REPO=/tmp/seed5/CLEAN /tmp/verif2/vcheck $ID $TIER 2>&1 | grep "VIOLATION\|HARNESS\|tier=" | cut -c1-300
